@@ -1,6 +1,168 @@
 import Driver.Util
+import Sqfs.Spec.TarNumber
+import Sqfs.Model.TarSparse
+import Sqfs.Model.TarConv
 namespace Driver.C04
-/-- stub: the model driver for C04 is not built yet -/
+open Sqfs.Tar
+
+def showNum : Option Nat → String
+  | none => "err"
+  | some v => s!"ok {v}"
+
+def withHex (h : String) (f : Bytes → String) : String :=
+  match fromHex h with
+  | some b => f b
+  | none => "bad-op"
+
+def octStr (n : Nat) : String := String.ofList (Nat.toDigits 8 n)
+
+def optHex : Option Bytes → String
+  | none => "null"
+  | some b => toHexTok b
+
+def showPairs (l : List (Nat × Nat)) : String :=
+  if l.isEmpty then "-" else ",".intercalate (l.map fun p => s!"{p.1}:{p.2}")
+
+def showXattr (l : List (Bytes × Bytes)) : String :=
+  if l.isEmpty then "-" else ",".intercalate (l.map fun p => toHexTok p.1 ++ ":" ++ toHexTok p.2)
+
+def showDecoded (d : Decoded) : String :=
+  s!"name={optHex d.name} link={optHex d.link} mode={octStr d.mode} uid={d.uid} gid={d.gid} maj={d.devMajor} min={d.devMinor} " ++
+  s!"mtime={d.mtime} rsize={d.recordSize} asize={d.actualSize} unk={if d.unknown then 1 else 0} hl={if d.hardLink then 1 else 0} " ++
+  s!"sparse={showPairs d.sparse} xattr={showXattr d.xattr}"
+
+def parseOct (s : String) : Option Nat :=
+  s.toList.foldl (fun acc c => match acc with
+    | none => none
+    | some a => if '0' ≤ c ∧ c ≤ '7' then some (a * 8 + (c.toNat - 48)) else none) (some 0)
+
+def parseXattrs : List String → Option (List (Bytes × Bytes))
+  | [] => some []
+  | [_] => none
+  | k :: v :: r => do
+    let kb ← fromHex k
+    let vb ← fromHex v
+    let t ← parseXattrs r
+    pure ((kb, vb) :: t)
+
+/-- `enc <flags> <mode-octal> <uid> <gid> <size> <mtime> <maj> <min> <counter> <name> <target|null> {<key> <value>}` -/
+def parseEnc (ws : List String) : Option (WEntry × Option Bytes × List (Bytes × Bytes) × Nat) :=
+  match ws with
+  | fl :: mo :: ui :: gi :: sz :: mt :: mj :: mi :: cn :: nm :: tg :: xs => do
+    let fl ← fl.toNat?
+    let mo ← parseOct mo
+    let ui ← ui.toNat?
+    let gi ← gi.toNat?
+    let sz ← sz.toNat?
+    let mt ← mt.toInt?
+    let mj ← mj.toNat?
+    let mi ← mi.toNat?
+    let cn ← cn.toNat?
+    let nm ← fromHex nm
+    let tg ← if tg = "null" then some none else (fromHex tg).map some
+    let xs ← parseXattrs xs
+    pure ({ name := nm, mode := mo, uid := ui, gid := gi, size := sz, mtime := mt, devMajor := mj, devMinor := mi,
+            hardLink := fl / 2 % 2 = 1 }, tg, xs, cn)
+  | _ => none
+
+def showIter (es : List IterEntry) (e : IterEnd) : String :=
+  let one (x : IterEntry) : String :=
+    s!"name={toHexTok x.name} mode={octStr x.mode} flags={if x.hardLink then 2 else 0} uid={x.uid} gid={x.gid} mtime={x.mtime} size={x.size}" ++
+    (if fmt x.mode = S_IFLNK then " link=" ++ optHex x.link else "") ++
+    (match x.data with
+     | none => ""
+     | some r => match r.ending with
+       | .corrupted => " data=corrupted"
+       | .eof => " data=" ++ (if r.out.length > 8192 then "big" else toHexTok r.out) ++ s!" len={r.out.length}")
+  let body := " | ".intercalate (es.map one)
+  (if es.isEmpty then "" else body ++ " | ") ++ (if e = .eof then "end=1" else "end=-1")
+
+/-- fold of `process_tarball` over the iterator's entries on the flat tree; `none` = tar2sqfs fails -/
+def convertWith (pe : ConvOpts → CEntry → Action) (o : ConvOpts) (es : List IterEntry) : Option (List TNode × List (List Bytes × Nat × Nat)) :=
+  es.foldl (fun acc x => match acc with
+    | none => none
+    | some (t, devs) =>
+      let link := if fmt x.mode = S_IFLNK then x.link else none
+      if fmt x.mode = S_IFLNK ∧ link.isNone then none                      -- `read_link` fails: no target
+      else
+      match pe o ⟨x.name, x.mode, x.uid, x.gid, x.mtime, x.hardLink, link, x.devMajor, x.devMinor⟩ with
+      | .skip => some (t, devs)
+      | .root e => if e.hardLink ∨ fmt e.mode ≠ S_IFDIR ∨ e.uid > 0xFFFFFFFF ∨ e.gid > 0xFFFFFFFF then none else some (t, devs)
+      | .node e => match addGeneric o t e with
+        | none => none
+        | some t' => some (t', devs ++ [(Sqfs.Path.splitSlash e.name, x.devMajor, x.devMinor)])) (some ([], []))
+
+def describeNode (devs : List (List Bytes × Nat × Nat)) (n : TNode) : String :=
+  let path := toHexTok (Sqfs.Path.joinSlash n.path)
+  let perm := s!" 0{octStr (n.mode % 4096)} {n.uid} {n.gid}"
+  let f := fmt n.mode
+  if n.hardLink then "hardlink " ++ path ++ " " ++ optHex n.target
+  else if f = S_IFDIR then "dir " ++ path ++ perm ++ s!" mtime={n.modTime}"
+  else if f = S_IFLNK then "slink " ++ path ++ perm ++ s!" mtime={n.modTime} " ++ optHex n.target
+  else if f = S_IFREG then "file " ++ path ++ perm ++ s!" mtime={n.modTime}"
+  else if f = S_IFIFO then "pipe " ++ path ++ perm ++ s!" mtime={n.modTime}"
+  else if f = S_IFSOCK then "sock " ++ path ++ perm ++ s!" mtime={n.modTime}"
+  else
+    let d := (devs.find? (·.1 = n.path)).getD (n.path, 0, 0)
+    "nod " ++ path ++ perm ++ s!" mtime={n.modTime} " ++ (if f = S_IFCHR then "c" else "b") ++ s!" {d.2.1} {d.2.2}"
+
+def step (line : String) : String :=
+  match words line with
+  | ["rn", h] => withHex h fun b => if b.isEmpty then "bad-op" else showNum (readNumber b)
+  | ["rncur", h] => withHex h fun b => if b.isEmpty then "bad-op" else showNum (readNumberCur b)
+  | ["rnspec", h] => withHex h fun b => if b.isEmpty then "bad-op" else showNum (specNumber b)
+  | ["wn", v, w] =>
+    match v.toNat?, w.toNat? with
+    | some v, some w => if 2 ≤ w ∧ w ≤ 21 ∧ v < U64 then toHexTok (writeNumber v w) else "bad-op"
+    | _, _ => "bad-op"
+  | ["wns", v, w] =>
+    match v.toInt?, w.toNat? with
+    | some v, some w =>
+      if 2 ≤ w ∧ w ≤ 21 ∧ -9223372036854775808 ≤ v ∧ v < 9223372036854775808 then toHexTok (writeNumberSigned v w) else "bad-op"
+    | _, _ => "bad-op"
+  | ["ck", h] => withHex h fun b => if b.length = 512 then toString (computeChecksum b) else "bad-op"
+  | ["ckv", h] => withHex h fun b => if b.length = 512 then (if isChecksumValid b then "1" else "0") else "bad-op"
+  | ["upd", h] => withHex h fun b => if b.length = 512 then toHexTok (updateChecksum b) else "bad-op"
+  | ["pdl", n] => match n.toNat? with
+    | some n => toString (prefixDigitLen n)
+    | none => "bad-op"
+  | "enc" :: ws => match parseEnc ws with
+    | some (e, tg, xs, cn) => match writeTarHeader e tg xs cn with
+      | some b => "ok " ++ toHexTok b
+      | none => "err -"
+    | none => "bad-op"
+  | "enccur" :: ws => match parseEnc ws with
+    | some (e, tg, xs, cn) =>
+      let (b, ok) := writeTarHeaderCur e tg xs cn
+      (if ok then "ok " else "err ") ++ toHexTok b
+    | none => "bad-op"
+  | ["dec", h] => withHex h fun s => match readHeader s with
+    | .eof => "eof"
+    | .err => "err"
+    | .ok d rest => "ok " ++ showDecoded d ++ s!" consumed={s.length - rest.length}"
+  | ["decx", r, k, h] => withHex h fun s => match readHeaderWith { rejectOversizedMap := r = "1", xattrKeepOrder := k = "1" } s with
+    | .eof => "eof"
+    | .err => "err"
+    | .ok d rest => "ok " ++ showDecoded d ++ s!" consumed={s.length - rest.length}"
+  | ["canonip", h] => withHex h fun s => let (b, ok) := canonInPlace s; (if ok then "0 " else "-1 ") ++ toHexTok b
+  | [op, rb, sflag, kflag, dmt, duid, dgid, dmode, h] =>
+    if op ≠ "t2s" ∧ op ≠ "t2scur" then "bad-op" else
+    match fromHex rb, dmt.toNat?, duid.toNat?, dgid.toNat?, parseOct dmode, fromHex h with
+    | some rb, some dmt, some duid, some dgid, some dmode, some s =>
+      let o : ConvOpts := { rootBecomes := if rb.isEmpty then none else some rb, noSymlinkRetarget := sflag = "1",
+                            keepTime := kflag ≠ "1", defMtime := dmt, defUid := duid, defGid := dgid, defMode := dmode }
+      let (es, e) := iterate s
+      if e ≠ .eof then "fail"
+      else match convertWith (if op = "t2s" then processEntry else processEntryCur) o es with
+        | none => "fail"
+        | some (t, devs) => "ok " ++ ";".intercalate (t.map (describeNode devs))
+    | _, _, _, _, _, _ => "bad-op"
+  | ["iter", h] => withHex h fun s => let (es, e) := iterate s; showIter es e
+  | ["iterx", r, k, h] => withHex h fun s =>
+    let (es, e) := iterateWith { rejectOversizedMap := r = "1", xattrKeepOrder := k = "1" } s; showIter es e
+  | _ => "bad-op"
+
 def run (_args : List String) : IO Unit := do
-  IO.eprintln "sqfsmodel: model C04 not built yet"
+  lineLoop (← IO.getStdin) (← IO.getStdout) step
+
 end Driver.C04
